@@ -101,3 +101,69 @@ Proof.
   unfold check_stacked in *. destruct (check_all (S (List.length ds)) ds ds) as [| n | |]; try congruence.
   exists n. reflexivity.
 Qed.
+
+(* ---------- rejected <-> a cycle is reachable (names unique, as keys of the deployments mapping) ---------- *)
+Lemma reach_snoc ds a k b n b' :
+  reach ds a k b -> d_wraps b = Some n -> dlookup n ds = Some b' -> reach ds a (S k) b'.
+Proof.
+  intros Hr W L. induction Hr as [d|a0 n0 a' k b0 Hn Hl Hr IH].
+  - eapply reachS; [exact W|exact L|constructor].
+  - eapply reachS; [exact Hn|exact Hl|]. apply IH; assumption.
+Qed.
+
+Lemma check_from_cycle_in ds : forall fuel d seen n,
+  In d ds ->
+  (forall s, In s seen -> exists x j, In x ds /\ d_name x = s /\ reach ds x j d) ->
+  check_from fuel ds d seen = CCycle n ->
+  exists x y j, In x ds /\ In y ds /\ d_name x = n /\ d_name y = n /\ reach ds x (S j) y.
+Proof.
+  induction fuel as [|fuel IH]; intros d seen n Hd Inv; simpl.
+  - destruct (d_wraps d); discriminate.
+  - destruct (d_wraps d) as [w|] eqn:W; [|discriminate].
+    destruct (dlookup w ds) as [d'|] eqn:L; [|discriminate].
+    pose proof (proj1 (dlookup_in w ds d' L)) as Hd'.
+    destruct (mem (d_name d') seen) eqn:M.
+    + intros H. injection H as H. subst n. apply mem_in in M.
+      destruct (Inv _ M) as (x & j & Hx & Hn & Hr).
+      exists x, d', j. repeat split; try assumption. eapply reach_snoc; eassumption.
+    + apply IH; [exact Hd'|]. intros s [Hs|Hs].
+      * subst s. exists d', 0. repeat split; [exact Hd'|constructor].
+      * destruct (Inv _ Hs) as (x & j & Hx & Hn & Hr). exists x, (S j).
+        repeat split; try assumption. eapply reach_snoc; eassumption.
+Qed.
+
+Lemma check_all_cycle_in ds fuel : forall todo n,
+  incl todo ds -> check_all fuel ds todo = CCycle n ->
+  exists x y j, In x ds /\ In y ds /\ d_name x = n /\ d_name y = n /\ reach ds x (S j) y.
+Proof.
+  induction todo as [|d todo IH]; simpl; intros n Hincl H; [discriminate|].
+  destruct (check_from fuel ds d [d_name d]) eqn:E; try discriminate.
+  - apply IH; [intros z Hz; apply Hincl; right; exact Hz|exact H].
+  - injection H as H. subst name.
+    eapply check_from_cycle_in; [apply Hincl; left; reflexivity| |exact E].
+    intros s [Hs|[]]. subst s. exists d, 0. repeat split; [apply Hincl; left; reflexivity|constructor].
+Qed.
+
+Lemma same_name_same ds : NoDup (map d_name ds) ->
+  forall x y, In x ds -> In y ds -> d_name x = d_name y -> x = y.
+Proof.
+  induction ds as [|a ds IH]; intros Hnd x y Hx Hy E; [destruct Hx|].
+  simpl in Hnd. inversion Hnd as [|? ? Hna Hnd']; subst.
+  destruct Hx as [Hx|Hx], Hy as [Hy|Hy]; subst.
+  - reflexivity.
+  - exfalso. apply Hna. rewrite E. apply in_map. exact Hy.
+  - exfalso. apply Hna. rewrite <- E. apply in_map. exact Hx.
+  - apply IH; assumption.
+Qed.
+
+Theorem rejected_iff_cycle ds :
+  NoDup (map d_name ds) -> closed ds ->
+  ((exists n, check_stacked ds = CCycle n) <->
+   (exists d x j m, In d ds /\ reach ds d j x /\ reach ds x (S m) x)).
+Proof.
+  intros Hnd Hcl. split.
+  - intros [n H]. destruct (check_all_cycle_in ds _ ds n (incl_refl ds) H) as (x & y & j & Hx & Hy & Nx & Ny & Hr).
+    assert (E : x = y) by (apply (same_name_same ds Hnd); [assumption|assumption|congruence]). subst y.
+    exists x, x, 0, j. repeat split; [exact Hx|constructor|exact Hr].
+  - intros (d & x & j & m & Hd & Hj & Hc). exact (reachable_cycle_rejected ds d j x m Hcl Hd Hj Hc).
+Qed.
